@@ -319,6 +319,29 @@ def standin(tier, seed):
             failures.append({"what": "[%s] body timeout: finish=%d close=%d" % (name, evs.count("finish"), evs.count("close")), "history": {"body_timeout": 10}})
         nontriv.add(("timeout", name))
 
+    # body timeout while the application has stopped taking data (an awaited data_received that never completes): the timeout still ends the message, and shutdown completes
+    async def after_stalled(v, stream, server, res):
+        import asyncio
+        v.advance(30)
+        await v.settle()
+        res.open_after_timeout = len(server._connections)
+        t = asyncio.ensure_future(server.close_all_connections())
+        await v.settle()
+        res.shutdown_done = t.done()
+        if not t.done():
+            t.cancel()
+    for name in ("content-length", "chunked"):
+        wire, full = shapes[name]
+        r = S.run_server([wire[:len(wire) - 7]], make_app=lambda res: S.RecordingDelegate(res, stall_data=True), server_kwargs=dict(body_timeout=10, chunk_size=8), eof=False, after=after_stalled)
+        evals += 1
+        evs = [e for (no, e, p) in r.events if no == 1]
+        if evs.count("headers") == 1 and evs.count("finish") + evs.count("close") != 1:
+            failures.append({"what": "[%s] body timeout with a stalled consumer: finish=%d close=%d (exactly one is required)" % (name, evs.count("finish"), evs.count("close")), "history": {"body_timeout": 10, "data_received": "never completes"}})
+        elif getattr(r, "open_after_timeout", 0) != 0 or not getattr(r, "shutdown_done", False):
+            failures.append({"what": "[%s] body timeout with a stalled consumer: %d connection(s) still registered, close_all_connections completed: %s" % (name, getattr(r, "open_after_timeout", -1), getattr(r, "shutdown_done", None)),
+                             "history": {"body_timeout": 10, "data_received": "never completes"}})
+        nontriv.add(("timeout-stalled", name))
+
     async def shutdown(v, stream, server, res):
         import asyncio
         t = asyncio.ensure_future(server.close_all_connections())
